@@ -25,7 +25,9 @@ macro "one_step_leaf" : tactic => `(tactic|
     | exact Step.of_mode0 (by simp_all) (by first | (simp_all; done) | (simp_all; omega))
     | (split <;> exact Step.of_mode0 (by simp_all) (by first | (simp_all; done) | (simp_all; omega)))
     | (split <;> (try split) <;> exact Step.of_mode0 (by simp_all) (by first | (simp_all; done) | (simp_all; omega)))
-    | (refine ⟨?_, ?_, ?_⟩ <;> simp_all <;> omega)))
+    | (refine ⟨?_, ?_, ?_⟩ <;> simp_all <;> omega)
+    | (intro h; exact h)
+    | (intro h; simpa using h)))
 
 open Lean Elab Tactic Meta
 
